@@ -25,8 +25,13 @@ def run(tier, seed, t0):
     summ = json.loads(vlib.run_harness(["c06", rows, out, seed, nrender]))
     events, mism, r = vlib.judge_trace("Trace_C06", os.path.join(out, "c06.events.ndjson"), timeout=3000)
     v = vlib.Verdict(PID)
+    api_drift = {}
     for m in mism:
         e = events[m[1] - 1]
+        if m[2] in ("IsPoint / Z", "Members() does not return the foreign members"):
+            # Members(), IsPoint() and Z() are specified (GeoDocOut) but are not part of C06's statement: reported, not alarmed
+            api_drift[m[2]] = api_drift.get(m[2], 0) + 1
+            continue
         v.violation({"property": PID, "event": {k: e[k] for k in e if k not in ("doc", "out")}, "expected_L1": "round trip", "why": m[2],
                      "what": "Parse(%s).JSON() = %s : %s" % (e["text"], e["output"], m[2])})
     for l in open(os.path.join(out, "c06.panics.ndjson")):
@@ -45,7 +50,7 @@ def run(tier, seed, t0):
                 "OutInfo(out) = ExpInfo(in) (type, x/y bit-for-bit via tokens, z/m of the declared dimensionality, child order, "
                 "foreign members in order, properties on Features). distinct_nontrivial = distinct (document, table, options) round trips",
         "samples": [{k: events[len(events) // 2][k] for k in ("text", "output", "opts", "fix", "valid", "samekind", "sameans")}],
-        "round_trips_judged_by_tlc": len(events), "mismatches": len(mism),
+        "round_trips_judged_by_tlc": len(events), "mismatches": len(mism), "accessor_deviations_outside_the_statement": api_drift,
         "byte_level": c07.lex_cov(lsum, lstates, lrows),
     }
     vlib.write_evidence(PID, tier, seed, t0, cov, [vlib.TOOLS,
